@@ -17,6 +17,7 @@
 #include "fz_common.hpp"
 
 #include <memory>
+#include <strings.h>
 
 #include <xercesc/util/PlatformUtils.hpp>
 
@@ -119,6 +120,10 @@ const char* excluded(unsigned entry, const std::string& encoding)
     if (filtersOff()) return 0;
     // F-C03-icu-converter-name: XalanCreateXPath hands the encoding name to ICU's ucnv_openU unchecked
     if (entry == 5 && hasNonAscii(encoding)) return "excluded_by_filter:F-C03-icu-converter-name";
+    // F-C03-utf16-transcoder-overread: XalanUTF16Transcoder::transcode(bytes -> UTF-16) reads past the end of its source
+    if (entry == 5 && (strcasecmp(encoding.c_str(), "UTF-16") == 0 || strcasecmp(encoding.c_str(), "UTF-16LE") == 0 ||
+                       strcasecmp(encoding.c_str(), "UTF-16BE") == 0))
+        return "excluded_by_filter:F-C03-utf16-transcoder-overread";
     return 0;
 }
 }  // namespace
